@@ -45,17 +45,27 @@ THEOREMS = [
     dict(name="Snow.C02.radial_row_sum", strength="full",
          clause="r-weighted radial operator of one row = flux-form boundary terms minus sum (r_{k+2}-r_{k+1}-dr)(T_{k+2}-T_{k+1})"),
     dict(name="Snow.C02.liquidus_crossing_not_conservative", strength="counterexample",
-         clause="K8: one step of the 1D solidification stencil, two layers, insulated ends, uniform conductivity: layer 0 "
+         clause="K8: one step of the 1D solidification STENCIL (Stencil1D.solid1D = the update of solidStep1D, with "
+                "hand-supplied BETA = 1 + beta/(T-T_m)^2 and liquidus ice w_eq, not the model's record), two layers, "
+                "insulated ends, uniform conductivity: layer 0 "
                 "crosses the liquidus and the column's enthalpy changes by -3/11 + 49/3672 although no heat crosses the "
                 "boundary (crossing term Dh*w_eq(T') + linearisation term); exact over the reals with rational data"),
     dict(name="Snow.C02.enthalpy_defect_identity", strength="full",
-         clause="the remainder of the 1D solidification step identified exactly: enthalpy change = boundary heat + "
-                "conduction remainder + sum of the per-node capacity defects d_j, any Nz >= 2, any fields"),
-    dict(name="Snow.C02.capacity_defect_crossing", strength="full",
-         clause="capacity defect of a node that crosses the liquidus in the step: exactly -Dh*w_eq(T') (the K8 term)"),
+         clause="ALGEBRAIC identity for ARBITRARY ice fields w, w' and any Nz >= 2: enthalpy change = boundary heat + "
+                "conduction remainder + sum of the per-node capacity defects d_j of the 1D solidification stencil"),
+    dict(name="Snow.C02.enthalpy_defect_identity_model", strength="full",
+         clause="the same for the model's own step: temperature and ice field produced by Snow.solidStep1D, its cp, "
+                "lambda_eff, BETA and boundary fluxes K_shelf*(T_sh-T_0), qEvap"),
+    dict(name="Snow.C02.capacity_defect_crossing_model", strength="full",
+         clause="K8 term on the model: a node of solidStep1D that is not supercooled and ice-free before the step and "
+                "supercooled after it has BETA = 1 and defect -Dh*iceMassEq(T')/mass"),
+    dict(name="Snow.C02.capacity_defect_crossing", strength="by-construction",
+         clause="the defect expression with BETA = 1 and no ice before is -Dh*w_eq(T') (definitional rearrangement)"),
     dict(name="Snow.C02.capacity_defect_on_liquidus", strength="full",
-         clause="capacity defect of a node that stays on the liquidus: exactly Dh*(c/m)*dT^2/((T_m-T')(T_m-T)^2) >= 0 "
-                "(second order; no crossing => the remainder is conduction remainder + these linearisation terms)"),
+         clause="capacity defect of a node that stays on the liquidus: exactly Dh*(c/m)*dT^2/((T_m-T')(T_m-T)^2) "
+                "(equality; second order in dT)"),
+    dict(name="Snow.C02.capacity_defect_on_liquidus_nonneg", strength="full",
+         clause="... and that term is >= 0 when Dh*c/m >= 0 and T, T' < T_m"),
     dict(name="Snow.C02.solid1D_balance_partial", strength="partial",
          clause="1D solidification stage, any Nz >= 2: rho*dz*sum cp_j*BETA_j*(T'_j-T_j) = dt*(q_shelf+q_e) + (dt/dz)*R "
                 "with the explicit non-conservative remainder R (derivative-product terms minus the flux-form part); "
